@@ -116,6 +116,39 @@ namespace vh::pk {
         install_crash_handlers();    // pika may have installed its own
     }
 
+    void start_with_pools(RunCtx& ctx, std::vector<PoolSpec> const& pools, std::function<int()> entry)
+    {
+        int extra = 0;
+        for (auto& p : pools) extra += p.threads;
+        int64_t dflt = ctx.params.get("rt.workers", 1);
+        // --pika:threads counts all pools
+        ctx.params.set("rt.workers", dflt + extra);
+        std::vector<PoolSpec> spec = pools;
+        start(ctx, entry, [spec](pika::resource::partitioner& rp) {
+            std::vector<int> left;
+            for (auto& p : spec)
+            {
+                if (p.mode >= 0)
+                    rp.create_thread_pool(p.name, (pika::resource::scheduling_policy) p.policy,
+                        (pika::threads::scheduler_mode) p.mode);
+                else
+                    rp.create_thread_pool(p.name, (pika::resource::scheduling_policy) p.policy);
+                left.push_back(p.threads);
+            }
+            size_t cur = 0;
+            for (pika::resource::socket const& d : rp.sockets())
+                for (pika::resource::core const& c : d.cores())
+                    for (pika::resource::pu const& pu : c.pus())
+                    {
+                        while (cur < spec.size() && left[cur] == 0) cur++;
+                        if (cur >= spec.size()) return;
+                        rp.add_resource(pu, spec[cur].name);
+                        left[cur]--;
+                    }
+        });
+        ctx.params.set("rt.workers", dflt);
+    }
+
     int stop()
     {
         pika::finalize();
